@@ -738,7 +738,20 @@ impl<'a> Searcher<'a> {
                                         return Ok(());
                                     }
 
+                                    // only a regular file is opened as an archive: a named pipe called `p.zip`
+                                    // would block the search for ever, and an archive behind a symbolic link is
+                                    // behind a link - it is read when `symlinks` asks for that
+                                    let regular_file = match entry.file_type() {
+                                        Ok(file_type) if file_type.is_symlink() => {
+                                            self.current_follow_symlinks
+                                                && fs::metadata(&path).is_ok_and(|metadata| metadata.is_file())
+                                        }
+                                        Ok(file_type) => file_type.is_file(),
+                                        _ => false,
+                                    };
+
                                     if search_archives
+                                        && regular_file
                                         && self.is_zip_archive(&path.to_string_lossy())
                                     {
                                         if let Ok(file) = fs::File::open(&path) {
